@@ -220,8 +220,6 @@ func (*TumblingWindow).Add
   acquires tw.mu
   modifies *
   observe late := IsEventTimeLate
-  before extractSessionCompositeKey late-event-never-reaches-ingest: !$late
-  before extractSessionCompositeKey unplaceable-event-never-reaches-ingest: sw.config.TimeCharacteristic == "EventTime" ==> second(extractTimestamp(data, sw.config.TsProp, sw.config.TimeUnit))
   ensures unplaceable-dropped: tw.config.TimeCharacteristic == "EventTime" && !second(extractTimestamp(data, tw.config.TsProp, tw.config.TimeUnit)) ==> tw.data == old(tw.data) && tw.currentSlot == old(tw.currentSlot) && tw.initialized == old(tw.initialized)
   ensures on-time-buffered: tw.config.TimeCharacteristic == "EventTime" && second(extractTimestamp(data, tw.config.TsProp, tw.config.TimeUnit)) && !$late ==> appended(tw.data, old(tw.data), extractTimestamp(data, tw.config.TsProp, tw.config.TimeUnit), data)
   ensures late-in-current-kept: tw.config.TimeCharacteristic == "EventTime" && second(extractTimestamp(data, tw.config.TsProp, tw.config.TimeUnit)) && $late && old(tw.initialized) && old(inSlot(tw.currentSlot, extractTimestamp(data, tw.config.TsProp, tw.config.TimeUnit))) ==> appended(tw.data, old(tw.data), extractTimestamp(data, tw.config.TsProp, tw.config.TimeUnit), data)
@@ -388,8 +386,6 @@ func (*SlidingWindow).Add
   acquires sw.mu
   modifies *
   observe late := IsEventTimeLate
-  before extractSessionCompositeKey late-event-never-reaches-ingest: !$late
-  before extractSessionCompositeKey unplaceable-event-never-reaches-ingest: sw.config.TimeCharacteristic == "EventTime" ==> second(extractTimestamp(data, sw.config.TsProp, sw.config.TimeUnit))
   ensures unplaceable-dropped: sw.config.TimeCharacteristic == "EventTime" && !second(extractTimestamp(data, sw.config.TsProp, sw.config.TimeUnit)) ==> sw.data == old(sw.data) && sw.currentSlot == old(sw.currentSlot) && sw.initialized == old(sw.initialized)
   ensures on-time-buffered: sw.config.TimeCharacteristic == "EventTime" && second(extractTimestamp(data, sw.config.TsProp, sw.config.TimeUnit)) && !$late ==> appended(sw.data, old(sw.data), extractTimestamp(data, sw.config.TsProp, sw.config.TimeUnit), data)
   ensures late-in-current-kept: sw.config.TimeCharacteristic == "EventTime" && second(extractTimestamp(data, sw.config.TsProp, sw.config.TimeUnit)) && $late && old(sw.initialized) && old(inSlot(sw.currentSlot, extractTimestamp(data, sw.config.TsProp, sw.config.TimeUnit))) ==> appended(sw.data, old(sw.data), extractTimestamp(data, sw.config.TsProp, sw.config.TimeUnit), data)
